@@ -105,7 +105,11 @@ def gen_real_case(rng, cid, max_len=3, max_depth=2, allow=None, short_prob=0.0, 
         if len(order) < w + 2:
             order = order + [order[-1]] * 2
         X = real_data(rng, order, ns, nu, ep)
-        return dict(cid=cid, chain=chain, ns=ns, nu=nu, ep=ep, X=X, mode=mode, w=w, dims=d)
+        Xfit = X
+        if nu > 0 and rng.random() < 0.12:
+            Xfit = np.array(X, copy=True)
+            Xfit[:, (1 if ep else 0) + ns:] = 0
+        return dict(cid=cid, chain=chain, ns=ns, nu=nu, ep=ep, X=X, Xfit=Xfit, mode=mode, w=w, dims=d)
     raise RuntimeError('generator could not produce a case')
 
 
@@ -133,7 +137,8 @@ def close(a, b, tol=TOL):
 def desc(case, **kw):
     d = dict(chain=repr(case['chain']), n_states=case['ns'], n_inputs=case['nu'],
              episode_feature=case['ep'], layout=case['mode'], min_samples=case['w'],
-             X=np.asarray(case['X']).tolist())
+             X=np.asarray(case['X']).tolist(),
+             fit_on_zero_inputs=bool(case.get('Xfit') is not case['X']))
     d.update(kw)
     return d
 
@@ -413,7 +418,7 @@ def c07_prediction(case, rng, kp0):
     nso, nuo = kp0.n_states_out_, kp0.n_inputs_out_
     coef = rng.normal(size=(nso + nuo, nso)) * (0.3 / max(1.0, np.sqrt(nso + nuo)))
     kp = build_real_top(case['chain'], regressor=pykoop.DataRegressor(coef=coef))
-    kp.fit(X, n_inputs=nu, episode_feature=ep)
+    kp.fit(case.get('Xfit', X), n_inputs=nu, episode_feature=ep)
     w = kp.min_samples_
     off = 1 if ep else 0
     A = coef.T[:, :nso]; B = coef.T[:, nso:]
@@ -538,4 +543,39 @@ def c07_divergence(rng):
                     bad.append(dict(what='a diverging episode changes the prediction of another episode',
                                     relift_state=relift, diverging_label=big, label=int(l),
                                     episode_order=[int(v) for v in order], X=X.tolist()))
+    return n, bad
+
+
+# ------------------------------------------------------------ refit histories (C02 / C04 / C15)
+def leaf_refit(rng, kinds=None):
+    """A bare lifting function fitted once with one state/input split and fitted again with
+    another split of the same width must behave as a fresh estimator fitted with the latter."""
+    bad = []
+    n = 0
+    specs = [('poly', 2, False), ('poly', 3, True), ('bilinear',), ('const',), ('delay', 1, 2),
+             ('rbf', 1, 2), ('kernel', 1, 3), ('sk', 0), ('angle', (1, 0), False)]
+    for spec in specs:
+        for (nu1, nu2) in ((1, 2), (2, 0), (0, 1), (2, 1)):
+            for ep in (False, True):
+                n += 1
+                order, _ = sg.gen_layout(rng, 3, max_eps=3 if ep else 1, extra=3)
+                X = real_data(rng, order if ep else [0] * len(order), 1, 2, ep)   # 3 feature columns
+                reused = build_real(spec)
+                fresh = build_real(spec)
+                try:
+                    reused.fit(X, n_inputs=nu1, episode_feature=ep)
+                    reused.fit(X, n_inputs=nu2, episode_feature=ep)
+                    fresh.fit(X, n_inputs=nu2, episode_feature=ep)
+                    a = reused.transform(X); b = fresh.transform(X)
+                    ok = ((reused.n_states_out_, reused.n_inputs_out_, reused.min_samples_)
+                          == (fresh.n_states_out_, fresh.n_inputs_out_, fresh.min_samples_)
+                          and a.shape == b.shape and np.array_equal(a, b))
+                    info = dict(reused=[int(reused.n_states_out_), int(reused.n_inputs_out_)],
+                                fresh=[int(fresh.n_states_out_), int(fresh.n_inputs_out_)])
+                except Exception as e:  # noqa
+                    ok, info = False, dict(error=f'{type(e).__name__}: {e}')
+                if not ok:
+                    bad.append(dict(what='an estimator refitted with a different state/input split differs from a '
+                                         'fresh one (stale fitted state)', stage=repr(spec), n_inputs_first=nu1,
+                                    n_inputs_second=nu2, episode_feature=ep, X=X.tolist(), **info))
     return n, bad
